@@ -200,7 +200,8 @@ def run(ctx):
                 "type and every field offset incl. nested traversals with the field offset as base, ==, hash, comparisons of previously expanded small sets with huge ones) in a subprocess with the solver hooks on; every solver event is "
                 "validated by TLC; bytecodes executed inside the bit length set package are counted. Non-trivial = "
                 "repetition event with a count >= 2 * divisor; distinct by event signature")
-    ctx.assumptions = ["wall time and memory as such are not decided; the decided statement is the operation-count form: no growth of the "
+    ctx.assumptions = ["Apalache / z3 for the unbounded arithmetic lemma (EquivK(k, d) is congruent to k, never above k and below 2d for every k >= 2d)",
+                       "wall time and memory as such are not decided; the decided statement is the operation-count form: no growth of the "
                        "count from 2**16 elements upward and a fixed budget (4 * 10^7 instructions, ~9x the unchanged tree)",
                        "TLC's evaluation of the specification"]
     cfg = "BLS_lemma_quick.cfg" if ctx.tier == "quick" else "BLS_lemma_thorough.cfg"
@@ -209,6 +210,9 @@ def run(ctx):
     if res.violated:
         ctx.spec_violation(res, cfg)
     tlc.cleanup(res)
+    # the same reduction for ALL naturals k, d (not only those TLC enumerates): Apalache, SMT over unbounded integers
+    from .. import apalache
+    apalache.check(ctx, "ArithLemmas", ["EquivKLemma"] if ctx.tier == "quick" else ["EquivKLemma", "PadIdem", "PadShift"])
     exps = EXPS if ctx.tier == "quick" else [1, 2, 4, 7, 8, 9, 16, 24, 32, 33, 48, 63]
     results = core.pmap(probe_worker, exps, procs=min(8, len(exps)), chunksize=1)
     recs, by_id = [], {}
